@@ -164,8 +164,33 @@ func (p Path) HasSuffixText(suffix string) bool {
 // HasSuffixPath returns whether the path ends with the given suffix.
 // The basic unit of comparison is a path component, not a character.
 func (p Path) HasSuffixPath(suffix Path) bool {
-	return hasSuffix(string(p), string(suffix)) &&
-		(len(p) == len(suffix) || p[len(p)-len(suffix)-1] == '/')
+	if p.IsEmpty() || suffix.IsEmpty() {
+		return p == suffix
+	}
+
+	// Handle the simple case first, without any memory allocations.
+	if hasSuffix(string(p), string(suffix)) &&
+		(len(p) == len(suffix) || p[len(p)-len(suffix)-1] == '/' && suffix[0] != '/') {
+		return true
+	}
+
+	parts := p.Parts()
+	suffixParts := suffix.Parts()
+	if len(suffixParts) == 1 && suffixParts[0] == "." {
+		// It doesn't make sense to ask whether a path ends with
+		// the current directory.
+		return false
+	}
+	if len(suffixParts) > len(parts) {
+		return false
+	}
+	offset := len(parts) - len(suffixParts)
+	for i, suffixPart := range suffixParts {
+		if parts[offset+i] != suffixPart {
+			return false
+		}
+	}
+	return true
 }
 
 func (p Path) HasBase(base string) bool { return p.Base().String() == base }
